@@ -315,6 +315,12 @@ var methods = map[string]struct {
 	"Close()": {"GetDeviceID", func(ctx context.Context, s *bmc.V2Session) error { return s.Close(ctx) }},
 }
 
+// afterBusy, when set, makes the attacked reply the second one of the call: the
+// first attempt is answered with an authentic "node busy", the retransmission with
+// the attack datagram, and the caller's context ends during that attempt, so no
+// authentic final reply is ever delivered.
+var afterBusy bool
+
 func runAttackVia(t *rapid.T, c hx.Creds, cmdName string, a Attack, fixedDraw int, invoke func(ctx context.Context, s *bmc.V2Session) error) (r result, R []byte) {
 	w := hx.NewWorldFor(c, true)
 	// a second user/session on the same BMC provides "another session's K1"
@@ -351,8 +357,14 @@ func runAttackVia(t *rapid.T, c hx.Creds, cmdName string, a Attack, fixedDraw in
 	}
 	first := true
 	start := w.Net.Sends
+	busySent := false
 	w.BMC.Intercept = func(b *simbmc.BMC, rx *simbmc.Rx) {
 		if rx.Sess != bs || len(rx.Replies) == 0 || !first {
+			return
+		}
+		if afterBusy && !busySent && rx.Msg != nil {
+			busySent = true
+			rx.Replies = []memnet.Out{b.Wrap(bs, b.ResponseFor(rx.Msg, 0xC0, nil).Bytes())}
 			return
 		}
 		first = false
@@ -364,8 +376,25 @@ func runAttackVia(t *rapid.T, c hx.Creds, cmdName string, a Attack, fixedDraw in
 		r.differs = string(d) != string(R)
 		rx.Replies = []memnet.Out{{Data: d}}
 	}
-	cctx, cancel := w.Ctx(6)
+	budget := 6
+	if afterBusy {
+		budget = 2
+	}
+	cctx, cancel := w.Ctx(budget)
 	defer cancel()
+	if afterBusy {
+		var err error
+		if invoke != nil {
+			err = invoke(cctx, sess)
+		} else {
+			_, err = sess.SendCommand(cctx, call.Cmd)
+		}
+		r.sends, r.err = w.Net.Sends-start, err
+		if err == nil && r.differs {
+			r.msg = "the call returned a nil error although the only replies delivered were a node-busy answer and a datagram that is not authentic"
+		}
+		return
+	}
 	if invoke != nil {
 		err := invoke(cctx, sess)
 		r.sends, r.err = w.Net.Sends-start, err
@@ -508,10 +537,39 @@ func TestHighLevelMethods(t *testing.T) {
 	}
 }
 
+// TestAfterTemporaryCode: the forgery catalogue against the reply to the
+// retransmission that follows an authentic "node busy", with the caller's context
+// ending in that attempt: whatever the rejected datagram left behind, the call
+// must end with an error.
+func TestAfterTemporaryCode(t *testing.T) {
+	afterBusy = true
+	defer func() { afterBusy = false }()
+	n := 0
+	for _, name := range cmdNames {
+		for _, f := range forgeries {
+			n++
+			suite := hx.Suites9()[(n+int(ev.Seed))%9]
+			c := hx.Creds{User: "admin", Password: []byte("pw"), Priv: 4, Suite: suite, Seed: uint64(ev.Seed)*8191 + uint64(n)}
+			a := Attack{Kind: "forge", Forge: f, Param: n * 5}
+			r, _ := runAttackVia(nil, c, name, a, n+int(ev.Seed), nil)
+			ev.Eval()
+			if r.msg != "" {
+				cs := map[string]any{"command": name, "suite": suite.String(), "attack": a.String(), "afterNodeBusy": true}
+				ev.Violation("TestAfterTemporaryCode", cs, r.msg)
+				t.Fatalf("%v: %s", cs, r.msg)
+			}
+			if r.differs {
+				ev.NonTrivial(fmt.Sprintf("afterbusy|%s|%s", name, f))
+			}
+		}
+	}
+	ev.Label("forgery-after-temporary-code")
+}
+
 func TestCoverage(t *testing.T) {
 	need := []string{"enumeration-complete", "attack:flip", "attack:cut"}
 	for _, f := range forgeries {
 		need = append(need, "attack:forge:"+f)
 	}
-	ev.RequireLabels(t, 1, append(need, "high-level:Close()", "high-level:ChassisControl()")...)
+	ev.RequireLabels(t, 1, append(need, "high-level:Close()", "high-level:ChassisControl()", "forgery-after-temporary-code")...)
 }
